@@ -45,7 +45,16 @@ RULE = ("random real/complex data of length N in {7, 9, 13, 23, 24, 25, 64, 101,
         "and non-multiple pairs at the gcd bins, fresh objects or the NFFT setter in either direction, fs in {1, 0.5, 1000, 44100}; "
         "every common bin compared relative to its own value, |a-b| <= 256*eps*cond*max(|a|,|b|), cond = the conditioning of that bin "
         "(sqrt(v/vmin) for pole-type estimates, v/vmin minimum variance, sqrt(vmax/v) for polynomial-type, vmax/|v| correlogram, the "
-        "sum for ARMA): 1e-13 relative on the floor, about 4e-6 at a bin 156 dB above the floor; plus the model parameters")
+        "sum for ARMA): 1e-13 relative on the floor, about 4e-6 at a bin 156 dB above the floor; plus the model parameters; "
+        "kind 'history' (14 class variants): ONE object constructed at exactly the smallest admissible NFFT of its class (2*lag+1, "
+        "2*order, N, model order + 1; one case in four at one above), PSD read, then NFFT changed through the setter with data / lag / "
+        "order / window untouched: one raise (c in {2, 3, 4, 5}), raise and back, two or three raises in a row, non-multiple steps "
+        "(NFFT+1, NFFT + largest proper divisor, 2N -> 3N) compared at the gcd bins, up-up-down-up, a raise whose PSD is not read "
+        "followed by another raise; correlogram lag windows with non-zero end weights (hamming, rectangular) and zero end weights "
+        "(hann, bartlett, blackman) and any window name, lags from 1 to N-1; one case in three with a second live object of the same "
+        "class and configuration (other data) evaluated in between; every step against a fresh object on the same grid (1e-12 "
+        "elementwise, PSD and model parameters), every pair of steps at the common frequencies (1e-10 elementwise), the "
+        "correlogram at every step against the direct summation over the lags (1e-9)")
 
 ELEM_TOL = 1e-10        # elementwise: |a-b| <= ELEM_TOL * (max(|a|,|b|) + 1e-3 * peak)   (= 1e-10 relative + 1e-13 * peak absolute)
 ADAPT_TOL = 2e-3        # adaptive multitaper across two grids (max-norm, see PARTIAL)
@@ -356,6 +365,128 @@ def oracle_setter(p):
     if _elem(a3, a1) > 1e-12:
         out.append("%s: NFFT %d -> %d -> %d does not give the first estimate again (err %.2e)" % (tag, n1, n2, n1, _elem(a3, a1)))
     return out
+
+
+# ---------------------------------------------------------------------------------------------------------------------------
+# history of NFFT values on ONE object (data / lag / order / window untouched), starting at the smallest admissible NFFT
+
+HIST_FRESH_TOL = 1e-12      # the object after a history against a fresh object on the same grid (elementwise)
+# Measured on the unchanged tree over 2520 records of gen_history (14 class variants x 60 indices x 3 generator seeds):
+#   against a fresh object on the same grid:                     worst 0.0 (the same computation repeated); 1e-12 as in oracle_setter
+#   two steps of one history at their common (gcd) bins (_elem):  worst 1.93e-12; ELEM_TOL = 1e-10 leaves a margin of 52
+#   correlogram against _corr_ref (direct summation over lags):   worst 1.21e-12; REF_TOL = 1e-9 leaves a margin of 829
+#   adaptive multitaper across steps: ADAPT_TOL, max-norm, as for two fresh objects (see PARTIAL)
+
+
+def _other_record(x):
+    """a second record of the same length and real/complex class, derived from the case's own samples (replayable)"""
+    xa = np.asarray(x)
+    if xa.dtype.kind in "iub":
+        xa = xa.astype(float)
+    return np.conj(xa[::-1]) * 1.5 + 0.25 * np.abs(xa).max()
+
+
+def history_stats(p):
+    """(failures, worst error against fresh objects, worst error across steps (non-adaptive), worst error against _corr_ref)"""
+    cls, x, steps = p["cls"], p["x"], [int(n) for n in p["steps"]]
+    xa = np.asarray(x)
+    isreal = not np.iscomplexobj(xa)
+    fs = _fs_of(p)
+    cfg = p.get("cfg")
+    reads = p.get("reads") or [True] * len(steps)
+    other = bool(p.get("other"))
+    out = []
+    tag = "%s history NFFT %s (%s, N=%d, %s)" % (cls, " -> ".join(
+        "%d%s" % (n, "" if r else " (not read)") for n, r in zip(steps, reads)), "real" if isreal else "complex", len(xa), cfg)
+    exp = EXPECTED_KEYS.get(cls)
+    o = C.make(cls, x, steps[0], fs, False, cfg)
+    o2 = C.make(cls, _other_record(x), steps[0], fs, False, cfg) if other else None
+    seen = []
+    wf = wx = wr = 0.0
+    for i, n in enumerate(steps):
+        if i:
+            o.NFFT = [n, np.int64(n), np.int32(n)][(i + p.get("inttype", 0)) % 3]
+            if o2 is not None:
+                o2.NFFT = n
+        if not reads[i]:
+            continue
+        # (a second live object of the same class and configuration, other data, is evaluated on the same grid before / after)
+        if o2 is not None and i % 2 == 0:
+            np.asarray(o2.psd)
+        a = np.array(o.psd, copy=True)
+        if o2 is not None and i % 2 == 1:
+            np.asarray(o2.psd)
+        snap = _snapshot(o)
+        if o.NFFT != n or abs(o.df - float(fs) / n) > 1e-12 * abs(fs):
+            out.append("%s: at step %d the object reports NFFT=%r df=%r" % (tag, i, o.NFFT, o.df))
+        _axis_checks(tag, o, a, n, fs, isreal, out)
+        fresh = C.make(cls, x, n, fs, False, cfg)
+        af = np.asarray(fresh.psd)
+        e = _elem(a, af)
+        wf = max(wf, e)
+        if e > HIST_FRESH_TOL:
+            out.append("%s: the PSD at step %d (NFFT=%d) differs from a fresh NFFT=%d object (err %.2e)" % (tag, i, n, n, e))
+        if set(snap) != (exp if exp is not None else set(snap)):
+            out.append("%s: model parameters present at step %d: %s (expected %s)" % (tag, i, sorted(snap), sorted(exp or [])))
+        for k in sorted(snap):
+            fv = getattr(fresh, k, None)
+            if fv is None or _elem(np.atleast_1d(snap[k]).astype(complex), np.atleast_1d(np.asarray(fv)).astype(complex)) > 1e-12:
+                out.append("%s: '%s' at step %d differs from a fresh NFFT=%d object" % (tag, k, i, n))
+        if cls == "pcorrelogram":
+            c0 = cfg or C.default_cfg(cls, len(xa), not isreal)
+            if c0.get("window", "hamming") in CORR_REF_WINDOWS:
+                xr = xa.astype(float) if xa.dtype.kind in "iub" else xa
+                ref = _corr_ref(xr, None, c0["lag"], c0.get("window", "hamming"), "unbiased", "xcorr", n)
+                ref = 2 * ref[: _onesided_len(True, n)] if isreal else ref
+                e = _elem(a, ref)          # (the class doubles every one-sided value, DC and Nyquist included)
+                wr = max(wr, e)
+                if e > REF_TOL:
+                    out.append("%s: the PSD at step %d (NFFT=%d) differs from the direct summation over the lags at the grid "
+                               "frequencies (err %.2e)" % (tag, i, n, e))
+        seen.append((i, n, a, snap))
+    for u in range(len(seen)):
+        for v in range(u + 1, len(seen)):
+            (iu, nu, au, su), (iv, nv, av, sv) = seen[u], seen[v]
+            g = gcd(nu, nv)
+            cu, cv = au[:: nu // g], av[:: nv // g]
+            ncommon = _onesided_len(isreal, g)
+            if len(cu) < ncommon or len(cv) < ncommon:
+                out.append("%s: steps %d / %d: %d and %d values at the %d common frequencies" % (tag, iu, iv, len(cu), len(cv), ncommon))
+                continue
+            cu, cv = cu[:ncommon], cv[:ncommon]
+            if cls == "MT-adapt":
+                e, tol = rel(cu, cv), ADAPT_TOL
+            else:
+                e, tol = _elem(cu, cv), ELEM_TOL
+                wx = max(wx, e)
+            if e > tol:
+                out.append("%s: the PSD values of steps %d (NFFT=%d) and %d (NFFT=%d) differ at the common frequencies (err %.2e)" % (
+                    tag, iu, nu, iv, nv, e))
+            if nu == nv and _elem(au, av) > HIST_FRESH_TOL:
+                out.append("%s: steps %d and %d (both NFFT=%d) give different estimates (err %.2e)" % (tag, iu, iv, nu, _elem(au, av)))
+            if set(su) != set(sv):
+                out.append("%s: model parameters at steps %d / %d: %s / %s" % (tag, iu, iv, sorted(su), sorted(sv)))
+            for k in sorted(set(su) & set(sv)):
+                if k in ("ar", "ma", "rho", "reflection", "eigenvalues") or (k == "weights" and cls != "MT-adapt"):
+                    v1 = np.atleast_1d(su[k]).astype(complex)
+                    v2 = np.atleast_1d(sv[k]).astype(complex)
+                    if v1.shape != v2.shape or rel(v1, v2) > 1e-12:
+                        out.append("%s: model parameter '%s' changed between steps %d and %d" % (tag, k, iu, iv))
+    if o2 is not None:
+        a2 = np.asarray(o2.psd)
+        f2 = np.asarray(C.make(cls, _other_record(x), steps[-1], fs, False, cfg).psd)
+        wf = max(wf, _elem(a2, f2))
+        if _elem(a2, f2) > HIST_FRESH_TOL:
+            out.append("%s: a second live object (other data) taken through the same NFFT values differs from a fresh NFFT=%d object "
+                       "(err %.2e)" % (tag, steps[-1], _elem(a2, f2)))
+    return out, wf, wx, wr
+
+
+CORR_REF_WINDOWS = ("hamming", "rectangular", "hann", "bartlett", "blackman")
+
+
+def oracle_history(p):
+    return history_stats(p)[0]
 
 
 # ---------------------------------------------------------------------------------------------------------------------------
@@ -783,6 +914,14 @@ def _tags(p):
         t.append("side:%s" % p["side"])
     if n * (p.get("c") or 1) >= 1024:
         t.append("fine-grid>=1024")
+    if "steps" in p:
+        t.append("hist:%s" % p.get("shape"))
+        t.append("hist-start:%s" % p.get("start"))
+        if p.get("other"):
+            t.append("hist:second-live-object")
+        w = (p.get("cfg") or {}).get("window")
+        if w is not None:
+            t.append("hist-window:%s" % (w if w in ("hamming", "rectangular", "hann", "bartlett", "blackman") else "other"))
     if "where" in p:
         t.append("line:%s" % p["where"])
         t.append("line-noise:%g" % p.get("sigma", -1))
@@ -800,6 +939,7 @@ KINDS = {
     "mt": {"oracle": oracle_mt, "key": _key, "tags": _tags},
     "opt": {"oracle": oracle_opt, "key": _key, "tags": _tags},
     "line": {"oracle": oracle_line, "key": _key, "tags": _tags},
+    "history": {"oracle": oracle_history, "key": _key, "tags": _tags},
     "glue": {"impl": impl_glue, "model": model_glue, "rtol": 1e-9, "atol": 1e-300, "key": _key, "tags": _tags},
     "dft": {"impl": impl_dft, "model": model_dft, "rtol": 1e-10, "atol": 1e-12, "key": _key, "tags": _tags},
 }
@@ -987,6 +1127,56 @@ def gen_line(nrng, cls, i):
         q["via"] = "setter-down"
     if i % 9 == 7:
         q["fs"] = FS_VALUES[(i // 9) % 3]
+    return q
+
+
+# ---- histories of NFFT values on one object ------------------------------------------------------------------------------
+HIST_WINDOWS = ["hamming", "rectangular", "hann", "bartlett", "hamming", "blackman", "rectangular", None]   # None: any window name
+
+
+def gen_history(nrng, cls, i):
+    """one history case for class cls; i selects start (smallest admissible NFFT three times out of four, one above otherwise),
+    shape of the history and the side conditions deterministically"""
+    cplx = bool((i // 2) % 2)
+    N = [24, 25, 40, 24][(i // 3) % 4]
+    if cls == "pcorrelogram":
+        from spectrum.window import window_names
+        wn = sorted(window_names)
+        w = HIST_WINDOWS[i % len(HIST_WINDOWS)] or wn[int(nrng.integers(0, len(wn)))]
+        lag = [int(nrng.integers(1, N // 2)), int(nrng.integers(N // 2, N - 1)), N - 1, int(nrng.integers(2, 9))][(i // 2) % 4]
+        cfg = {"lag": lag, "window": w}
+    elif cls == "Periodogram":
+        cfg = {"window": ["hamming", "rectangular", "hann", "blackman"][i % 4]}
+    else:
+        cfg = C.random_cfg(nrng, cls, N, boundary=(i % 4 == 3))
+    nmin = C.min_nfft(cls, N, cfg)
+    s = nmin + (1 if i % 4 == 2 else 0)
+    g = max(d for d in range(1, s) if s % d == 0) if s > 1 else 1     # largest proper divisor: gcd(s, s + g) = g
+    c = [2, 3, 2, 5, 4][(i // 6) % 5]
+    shape = i % 6
+    reads = None
+    if shape == 0:
+        steps = [s, c * s]
+    elif shape == 1:
+        steps = [s, c * s, s]
+    elif shape == 2:
+        steps = [[s, 2 * s, 4 * s], [s, 2 * s, 6 * s], [s, 3 * s, 6 * s, 12 * s]][(i // 6) % 3]
+    elif shape == 3:
+        steps = [s, s + g, 2 * s] if (i // 6) % 2 else [s, s + 1, c * s]
+    elif shape == 4:
+        steps = [s, 2 * s, 3 * s, s, 2 * s]
+    else:
+        steps = [s, c * s, 2 * c * s]
+        reads = [True, False, True]
+    q = {"cls": cls, "x": _data(nrng, N, cplx, tone=bool(i % 5)), "n1": s, "steps": steps, "cfg": cfg, "inttype": i % 3,
+         "start": "nmin" if s == nmin else "nmin+1", "shape": ["raise", "raise-lower", "raises", "non-multiple", "up-up-down-up",
+                                                               "raise-unread-raise"][shape]}
+    if reads:
+        q["reads"] = reads
+    if i % 3 == 1:
+        q["other"] = True
+    if i % 7 == 5:
+        q["fs"] = FS_VALUES[(i // 7) % 3]
     return q
 
 
@@ -1191,3 +1381,8 @@ def gen(rng, nrng, tier):
         per = (24 if cls in ("pmusic", "pev") else 12) if quick else (48 if cls in ("pmusic", "pev") else 30)
         for t in range(per):
             yield ("line", gen_line(nrng, cls, t + ic + r0))
+    # ---- histories of NFFT values on ONE object, from the smallest admissible NFFT of its class
+    for ic, cls in enumerate(C.CLASSES):
+        per = {"pcorrelogram": 12, "Periodogram": 6}.get(cls, 4) * (1 if quick else 5)
+        for t in range(per):
+            yield ("history", gen_history(nrng, cls, t + (ic + r0) % 24 * (0 if cls == "pcorrelogram" and quick else 1)))
